@@ -159,15 +159,15 @@ def baseOk : Base → Prop
   | .pg p => segs p.ext ≠ [] ∧ RingsOk p.ints
   | _ => True
 
-theorem rectPoly_ok (mn mx : Pt) : segs (rectPoly mn mx).ext ≠ [] ∧ RingsOk (rectPoly mn mx).ints := by
+theorem dRectPoly_ok (mn mx : Pt) : segs (dRectPoly mn mx).ext ≠ [] ∧ RingsOk (dRectPoly mn mx).ints := by
   constructor
-  · simp [rectPoly, SM.rectToPolygon, segs]
-  · intro r hr; simp [rectPoly] at hr
+  · simp [dRectPoly, SM.rectToPolygon, segs]
+  · intro r hr; simp [dRectPoly] at hr
 
-theorem triPoly_ok (a b c : Pt) : segs (triPoly a b c).ext ≠ [] ∧ RingsOk (triPoly a b c).ints := by
+theorem dTriPoly_ok (a b c : Pt) : segs (dTriPoly a b c).ext ≠ [] ∧ RingsOk (dTriPoly a b c).ints := by
   constructor
-  · simp [triPoly, SM.triangleToPolygon, SM.close, SM.isClosed, segs]
-  · intro r hr; simp [triPoly] at hr
+  · simp [dTriPoly, SM.triangleToPolygon, SM.close, SM.isClosed, segs]
+  · intro r hr; simp [dTriPoly] at hr
 
 /-- **dist2_nonneg** for every pair of single-part types: no panic, and a non-negative value -/
 theorem baseD_nonneg : ∀ {x y : Base}, baseOk x → baseOk y → (baseD x y).Ge0
@@ -187,30 +187,30 @@ theorem baseD_nonneg : ∀ {x y : Base}, baseOk x → baseOk y → (baseD x y).G
   | .ls _, .ln _ _, _, _ => lineLs2_Ge0 _ _ _
   | .ls _, .ls _, hx, hy => lsLs2_Ge0 hx hy
   | .ls _, .pg _, hx, hy => lsPoly2_Ge0 hx hy.1 hy.2
-  | .ls _, .rc _ _, hx, _ => lsPoly2_Ge0 hx (rectPoly_ok _ _).1 (rectPoly_ok _ _).2
-  | .ls _, .tr _ _ _, hx, _ => lsPoly2_Ge0 hx (triPoly_ok _ _ _).1 (triPoly_ok _ _ _).2
+  | .ls _, .rc _ _, hx, _ => lsPoly2_Ge0 hx (dRectPoly_ok _ _).1 (dRectPoly_ok _ _).2
+  | .ls _, .tr _ _ _, hx, _ => lsPoly2_Ge0 hx (dTriPoly_ok _ _ _).1 (dTriPoly_ok _ _ _).2
   | .pg _, .pt _, _, _ => ptPoly2_Ge0 _ _
   | .pg _, .ln _ _, _, _ => linePoly2_Ge0 _ _ _
   | .pg _, .ls _, hx, hy => lsPoly2_Ge0 hy hx.1 hx.2
   | .pg _, .pg _, hx, hy => polyPoly2_Ge0 hx.1 hy.1 hx.2 hy.2
-  | .pg _, .rc _ _, hx, _ => polyPoly2_Ge0 (rectPoly_ok _ _).1 hx.1 (rectPoly_ok _ _).2 hx.2
-  | .pg _, .tr _ _ _, hx, _ => polyPoly2_Ge0 (triPoly_ok _ _ _).1 hx.1 (triPoly_ok _ _ _).2 hx.2
+  | .pg _, .rc _ _, hx, _ => polyPoly2_Ge0 (dRectPoly_ok _ _).1 hx.1 (dRectPoly_ok _ _).2 hx.2
+  | .pg _, .tr _ _ _, hx, _ => polyPoly2_Ge0 (dTriPoly_ok _ _ _).1 hx.1 (dTriPoly_ok _ _ _).2 hx.2
   | .rc _ _, .pt _, _, _ => ptPoly2_Ge0 _ _
   | .rc _ _, .ln _ _, _, _ => linePoly2_Ge0 _ _ _
-  | .rc _ _, .ls _, _, hy => lsPoly2_Ge0 hy (rectPoly_ok _ _).1 (rectPoly_ok _ _).2
-  | .rc _ _, .pg _, _, hy => polyPoly2_Ge0 (rectPoly_ok _ _).1 hy.1 (rectPoly_ok _ _).2 hy.2
+  | .rc _ _, .ls _, _, hy => lsPoly2_Ge0 hy (dRectPoly_ok _ _).1 (dRectPoly_ok _ _).2
+  | .rc _ _, .pg _, _, hy => polyPoly2_Ge0 (dRectPoly_ok _ _).1 hy.1 (dRectPoly_ok _ _).2 hy.2
   | .rc _ _, .rc _ _, _, _ =>
-    polyPoly2_Ge0 (rectPoly_ok _ _).1 (rectPoly_ok _ _).1 (rectPoly_ok _ _).2 (rectPoly_ok _ _).2
+    polyPoly2_Ge0 (dRectPoly_ok _ _).1 (dRectPoly_ok _ _).1 (dRectPoly_ok _ _).2 (dRectPoly_ok _ _).2
   | .rc _ _, .tr _ _ _, _, _ =>
-    polyPoly2_Ge0 (rectPoly_ok _ _).1 (triPoly_ok _ _ _).1 (rectPoly_ok _ _).2 (triPoly_ok _ _ _).2
+    polyPoly2_Ge0 (dRectPoly_ok _ _).1 (dTriPoly_ok _ _ _).1 (dRectPoly_ok _ _).2 (dTriPoly_ok _ _ _).2
   | .tr _ _ _, .pt _, _, _ => ptPoly2_Ge0 _ _
   | .tr _ _ _, .ln _ _, _, _ => linePoly2_Ge0 _ _ _
-  | .tr _ _ _, .ls _, _, hy => lsPoly2_Ge0 hy (triPoly_ok _ _ _).1 (triPoly_ok _ _ _).2
-  | .tr _ _ _, .pg _, _, hy => polyPoly2_Ge0 (triPoly_ok _ _ _).1 hy.1 (triPoly_ok _ _ _).2 hy.2
+  | .tr _ _ _, .ls _, _, hy => lsPoly2_Ge0 hy (dTriPoly_ok _ _ _).1 (dTriPoly_ok _ _ _).2
+  | .tr _ _ _, .pg _, _, hy => polyPoly2_Ge0 (dTriPoly_ok _ _ _).1 hy.1 (dTriPoly_ok _ _ _).2 hy.2
   | .tr _ _ _, .rc _ _, _, _ =>
-    polyPoly2_Ge0 (rectPoly_ok _ _).1 (triPoly_ok _ _ _).1 (rectPoly_ok _ _).2 (triPoly_ok _ _ _).2
+    polyPoly2_Ge0 (dRectPoly_ok _ _).1 (dTriPoly_ok _ _ _).1 (dRectPoly_ok _ _).2 (dTriPoly_ok _ _ _).2
   | .tr _ _ _, .tr _ _ _, _, _ =>
-    polyPoly2_Ge0 (triPoly_ok _ _ _).1 (triPoly_ok _ _ _).1 (triPoly_ok _ _ _).2 (triPoly_ok _ _ _).2
+    polyPoly2_Ge0 (dTriPoly_ok _ _ _).1 (dTriPoly_ok _ _ _).1 (dTriPoly_ok _ _ _).2 (dTriPoly_ok _ _ _).2
 
 /-- all single-part calls of `distance(a, b)` are on operands that cannot panic -/
 def CallsOk (a b : Geom) : Prop := ∀ xy ∈ calls a b, baseOk xy.1 ∧ baseOk xy.2
@@ -265,18 +265,18 @@ example : lsLsIntersects [⟨0, 0⟩, ⟨2, 2⟩] [⟨0, 2⟩, ⟨2, 0⟩] = lsL
 /-- **wrapper invariance**: a Rect / Triangle behaves as its `to_polygon()`; against another areal
 operand the macros exchange the operands of `Polygon × Polygon` in the listed cases -/
 theorem rect_triangle_as_polygon (mn mx a b c : Pt) :
-    (∀ y, baseRank y < 3 → baseD (.rc mn mx) y = baseD (.pg (rectPoly mn mx)) y ∧
-                        baseD y (.rc mn mx) = baseD y (.pg (rectPoly mn mx)) ∧
-                        baseD (.tr a b c) y = baseD (.pg (triPoly a b c)) y ∧
-                        baseD y (.tr a b c) = baseD y (.pg (triPoly a b c))) ∧
-    (∀ h, baseD (.rc mn mx) (.pg h) = baseD (.pg (rectPoly mn mx)) (.pg h) ∧
-          baseD (.tr a b c) (.pg h) = baseD (.pg (triPoly a b c)) (.pg h) ∧
-          baseD (.pg h) (.rc mn mx) = baseD (.pg (rectPoly mn mx)) (.pg h) ∧
-          baseD (.pg h) (.tr a b c) = baseD (.pg (triPoly a b c)) (.pg h)) ∧
-    (∀ mn' mx', baseD (.rc mn mx) (.rc mn' mx') = baseD (.pg (rectPoly mn' mx')) (.pg (rectPoly mn mx))) ∧
-    (∀ x y z, baseD (.tr a b c) (.tr x y z) = baseD (.pg (triPoly x y z)) (.pg (triPoly a b c))) ∧
-    baseD (.rc mn mx) (.tr a b c) = baseD (.pg (rectPoly mn mx)) (.pg (triPoly a b c)) ∧
-    baseD (.tr a b c) (.rc mn mx) = baseD (.pg (rectPoly mn mx)) (.pg (triPoly a b c)) := by
+    (∀ y, baseRank y < 3 → baseD (.rc mn mx) y = baseD (.pg (dRectPoly mn mx)) y ∧
+                        baseD y (.rc mn mx) = baseD y (.pg (dRectPoly mn mx)) ∧
+                        baseD (.tr a b c) y = baseD (.pg (dTriPoly a b c)) y ∧
+                        baseD y (.tr a b c) = baseD y (.pg (dTriPoly a b c))) ∧
+    (∀ h, baseD (.rc mn mx) (.pg h) = baseD (.pg (dRectPoly mn mx)) (.pg h) ∧
+          baseD (.tr a b c) (.pg h) = baseD (.pg (dTriPoly a b c)) (.pg h) ∧
+          baseD (.pg h) (.rc mn mx) = baseD (.pg (dRectPoly mn mx)) (.pg h) ∧
+          baseD (.pg h) (.tr a b c) = baseD (.pg (dTriPoly a b c)) (.pg h)) ∧
+    (∀ mn' mx', baseD (.rc mn mx) (.rc mn' mx') = baseD (.pg (dRectPoly mn' mx')) (.pg (dRectPoly mn mx))) ∧
+    (∀ x y z, baseD (.tr a b c) (.tr x y z) = baseD (.pg (dTriPoly x y z)) (.pg (dTriPoly a b c))) ∧
+    baseD (.rc mn mx) (.tr a b c) = baseD (.pg (dRectPoly mn mx)) (.pg (dTriPoly a b c)) ∧
+    baseD (.tr a b c) (.rc mn mx) = baseD (.pg (dRectPoly mn mx)) (.pg (dTriPoly a b c)) := by
   refine ⟨fun y hy => ?_, fun h => ⟨rfl, rfl, rfl, rfl⟩, fun _ _ => rfl, fun _ _ _ => rfl, rfl, rfl⟩
   cases y <;> simp [baseRank] at hy <;> exact ⟨rfl, rfl, rfl, rfl⟩
 
